@@ -48,6 +48,7 @@ func c02Gen(t *rapid.T, r *h.Rec) execCase {
 	o := jsonOpts(av, onEx, onCl)
 	o.ContainerMembers = true
 	o.EmbedUnionHolders = true
+	o.EmbedPtrNextToUnion = true
 	o.RecursiveUnions = true
 	o.NoIgnoreTag = false // gomacro:"ignore" is a TypeScript/Dart notion: encoding/json (and so the union routines) still carry the field
 	o.OtherFile = 4       // unions / members / element structs that are only reachable from the analysed file, not declared in it
